@@ -23,8 +23,13 @@ VOCAB = [
     "A", "_offset_", "zzz", "_x_", "uint", "---", "--", "=", "\n", "#", "\t", "\r\n", "\x00", "é",
     "010", "08", "007", "0_1_2", "00", "1__0", "1e", "1.e5", "0.1.2", "1_",
     "(-8)**(1/3)", "(10**400)**0.5", "1/0", "1%0", "{}", "{1,true}", "ns.Svc.1.0._extent_",
-    "dep2.Bad.1.0",      # a dependency (in a lookup directory) that is itself faulty: it has no @sealed / @extent
+    # dependencies (in a lookup directory) that are themselves faulty, one per class of fault: no @sealed / @extent, an
+    # undefined operator, an undefined attribute, a failing assertion, a syntax error, a name collision found at finalization
+    "dep2.Bad.1.0", "dep2.BadOp.1.0", "dep2.BadAttr.1.0", "dep2.BadAssert.1.0", "dep2.BadSyntax.1.0", "dep2.BadNames.1.0",
 ]
-BAD_DEP = "dep2.Bad.1.0"
-LOOKUP_FILES = {"lk/dep2/Bad.1.0.dsdl": "uint8 a\n"}
+BAD_DEPS = {"dep2.Bad.1.0": "Bad.1.0.dsdl", "dep2.BadOp.1.0": "BadOp.1.0.dsdl", "dep2.BadAttr.1.0": "BadAttr.1.0.dsdl",
+            "dep2.BadAssert.1.0": "BadAssert.1.0.dsdl", "dep2.BadSyntax.1.0": "BadSyntax.1.0.dsdl", "dep2.BadNames.1.0": "BadNames.1.0.dsdl"}
+LOOKUP_FILES = {"lk/dep2/Bad.1.0.dsdl": "uint8 a\n", "lk/dep2/BadOp.1.0.dsdl": "uint8 a\n@assert 1 + true\n@sealed\n",
+                "lk/dep2/BadAttr.1.0.dsdl": "uint8 a\n@print {1, 2}.size\n@sealed\n", "lk/dep2/BadAssert.1.0.dsdl": "uint8 a\n@assert false\n@sealed\n",
+                "lk/dep2/BadSyntax.1.0.dsdl": "uint8 a\n@@ ]\n@sealed\n", "lk/dep2/BadNames.1.0.dsdl": "uint8 a\nuint16 a\n@sealed\n"}
 DEP_FILES = {"ns/Dep.1.0.dsdl": "uint8 K = 3\nuint8 v\n@sealed\n", "ns/Svc.1.0.dsdl": "@sealed\n---\n@sealed\n"}
